@@ -214,6 +214,24 @@ def tlc_values(out, prefixes):
 _RE_VERDICT = re.compile(r'<<"(ACCEPT|MISMATCH|STUCK|DONE)"(?:, (.*))?>>')
 
 
+def gen_traces(rep, fn, n):
+    """call the random driver n times; a driver that cannot go on - the real system is in a state its own bookkeeping
+    says is impossible - is a divergence of the implementation, reported as such"""
+    import traceback as tb
+    out = []
+    failures = 0
+    for _ in range(n):
+        try:
+            out.append(fn())
+        except Exception as e:  # noqa: BLE001
+            failures += 1
+            if failures <= 2:
+                rep.violation(dict(leg="T", why="the random driver could not continue: the implementation left the envelope "
+                                   "of behaviours the driver mirrors", detail=f"{type(e).__name__}: {e}",
+                                   traceback=tb.format_exc()[-1500:]), tag="T")
+    return out
+
+
 def leg_t_gen(rep, work, mod, name, traces, variables, constants, config_vars, actions, internal=None, quiet=None,
               invariants=(), timeout=1800):
     """leg T through a generated trace module (harness/tracegen.py): the module is written to the scratch directory,
